@@ -48,7 +48,8 @@ CONTRACTS = {
     "C09.op_equal_inherited": (
         "the cases of C09.op_equal whose suffix contains an operation inherited unchanged from the block base class (sum, max, min, "
         "abs, sqrt, clip, isfinite, item, float, complex, int, bool), which read the stored blocks without the pending signs on the "
-        "unchanged tree (known defect F10); kept in a record of their own so that their expected failures cannot crowd out others; "
+        "original tree (defect F10, repaired in /repo by b46eb69); kept in a record of their own so that a regression there cannot "
+        "crowd out other failures; "
         "obligations are still named C09.op_equal.<opname>",
         "as generated for C09.op_equal (about 10 % of its cases)",
     ),
